@@ -209,6 +209,11 @@ def judge(L, seed, kind, real):
             return f"{tag}: make_invariants is not [N invariants, P invariants] in that order"
         if not np.array_equal(make_invariants(L, c0, kinds="N"), n0) or not np.array_equal(make_invariants(L, c0, kinds="P"), p0):
             return f"{tag}: make_invariants(kinds=...) does not select the requested kinds"
+        # number and ordering are a fixed function of the maximum degree: however the selection is spelled, N comes first, each kind once
+        for kinds in ("PN", ("P", "N"), ["N", "P"], "NPN", "np".upper()):
+            alt = make_invariants(L, c0, kinds=kinds)
+            if alt.shape != full.shape or not np.array_equal(alt, full):
+                return f"{tag}: make_invariants(kinds={kinds!r}) returns {alt.shape[0]} values in another order than kinds='NP' ({full.shape[0]} values, N first)"
     # locality: N_l ignores other degrees, and responds to its own
     l = int(nrng.integers(0, L + 1))
     d = c0.copy()
